@@ -41,7 +41,7 @@ Record case := mk_case {
   c_nlocales : N;                   (* number of configured locales *)
   c_locale : N;                     (* the locale asked for *)
   c_count : Z;                      (* the count passed (doubled), for range and plural keys *)
-  c_lang : N;                       (* language of the locale asked for: 0 en, 1 fr, 2 ru, 3 ar, 4 pl, 5 ja, 6 cy, 7 he *)
+  c_lang : N;                       (* language of the locale asked for: 0 en, 1 fr, 2 ru, 3 ar, 4 pl, 5 ja, 6 cy, 7 he, 8 pt, 9 pt-PT *)
   c_icu_cat : N;                    (* plural keys: the category icu_plurals gives for (locale asked for, rule type, count),
                                        as printed by the probe: 0 zero .. 5 other; 6 = not a plural key *)
   c_vars : list (str * str);        (* variable key ("var_x") -> the value passed *)
@@ -64,7 +64,7 @@ Definition effective_locale (c : case) : N :=
   first_defined (map_get (c_inherits c)) (defines_key c) 0 (N.to_nat (c_nlocales c)) (c_locale c).
 
 Definition lang_of (n : N) : CldrRules.locale :=
-  match n with 0 => L_en | 1 => L_fr | 2 => L_ru | 3 => L_ar | 4 => L_pl | 5 => L_ja | 6 => L_cy | _ => L_he end.
+  match n with 0 => L_en | 1 => L_fr | 2 => L_ru | 3 => L_ar | 4 => L_pl | 5 => L_ja | 6 => L_cy | 7 => L_he | 8 => L_pt | _ => L_pt_PT end.
 (** the plural category of the count for the locale asked for, from the CLDR rules written out in Runtime/CldrRules.v
     (not from the implementation, not from ICU) *)
 Definition cldr_category (lang : N) (count : Z) (r : Plurals.rule) : Plurals.form :=
